@@ -106,11 +106,12 @@ SchedBigProg(x) ==
 
 FaultBigCases == IF 3 \in TYPES THEN {[kind |-> "faultbig", n |-> n, few |-> FALSE] : n \in BigLens}
                                      \cup {[kind |-> "faultbig", n |-> 70000, few |-> TRUE]}      \* above 64 KiB in every tier, few plans
+                                     \cup (IF Thorough THEN {[kind |-> "faultbig", n |-> 1052672, few |-> TRUE]} ELSE {})   \* above 1 MiB
                  ELSE {}
 FaultBigProg(x) ==
   LET f == BigFrame(x.n)
       hl == Len(f) - x.n - 6
-      cuts == IF x.few THEN {hl + 7, Len(f) \div 2, Len(f) - 1, Len(f)}
+      cuts == IF x.few THEN {hl + 7, Len(f) \div 2, Len(f) - 1, Len(f)} \cup (IF Len(f) > 1048600 THEN {hl + 1048576, hl + 1048575} ELSE {})   \* (a mebibyte of body)
               ELSE {0, 1, 2, 3, hl - 1, hl, hl + 1, hl + 5, hl + 6, hl + 7, Len(f) \div 2, Len(f) - 1, Len(f)} \cap (0..Len(f))
       plans == SetToSeq({[chunks |-> cmp, fate |-> ft, with |-> w, cut |-> cut] :
                            cut \in cuts, ft \in {"eof", "err"}, w \in (IF x.few THEN {FALSE} ELSE BOOLEAN),
@@ -203,10 +204,11 @@ SeqSchedProg(x) ==
              \o deliver([chunks |-> <<>>, fate |-> "eof", with |-> TRUE], "")
              \o deliver([chunks |-> <<>>, fate |-> "eof", with |-> FALSE], "bytes.Buffer")]
 
-SeqHugeCases == IF Thorough THEN {[kind |-> "seqhuge", n |-> 1048580]} ELSE {}
-SeqHugeProg(x) ==
+SeqHugeCases == IF Thorough THEN {[kind |-> "seqhuge", n |-> 1048580, with |-> w, tail |-> tl] : w \in BOOLEAN, tl \in BOOLEAN} ELSE {}
+SeqHugeProg(x) ==      \* with: io.EOF comes together with the last bytes; ~tail: the long frame is the last of its stream
   [fam |-> "seq", meta |-> [kind |-> x.kind],
-   steps |-> <<[op |-> "Stream", stream |-> 1, bytes |-> BigFrame(x.n) \o <<64, 2, 0, 7>> \o <<192, 0>>, observe |-> "all"],
+   steps |-> <<[op |-> "Stream", stream |-> 1, bytes |-> BigFrame(x.n) \o (IF x.tail THEN <<64, 2, 0, 7>> \o <<192, 0>> ELSE <<>>), observe |-> "all",
+                reader |-> [chunks |-> <<>>, fate |-> "eof", with |-> x.with]],
                [op |-> "ReadPacket", h |-> 1, stream |-> 1], [op |-> "ReadPacket", h |-> 2, stream |-> 1],
                [op |-> "ReadPacket", h |-> 3, stream |-> 1], [op |-> "ReadPacket", h |-> 4, stream |-> 1]>>]
 SeqProg(x) ==
